@@ -1744,6 +1744,24 @@ def _handle_match_stage(in_collection, database, options):
     ]
 
 
+def _handle_limit_stage(in_collection, unused_database, options):
+    if isinstance(options, bool) or not isinstance(options, int):
+        raise OperationFailure(
+            'invalid argument to $limit stage: Expected an integer: $limit: %r' % (options,))
+    if options <= 0:
+        raise OperationFailure('the limit must be positive')
+    return in_collection[:options]
+
+
+def _handle_skip_stage(in_collection, unused_database, options):
+    if isinstance(options, bool) or not isinstance(options, int):
+        raise OperationFailure(
+            'invalid argument to $skip stage: Expected an integer: $skip: %r' % (options,))
+    if options < 0:
+        raise OperationFailure('Argument to $skip cannot be negative')
+    return in_collection[options:]
+
+
 _PIPELINE_HANDLERS = {
     '$addFields': _handle_add_fields_stage,
     '$bucket': _handle_bucket_stage,
@@ -1756,7 +1774,7 @@ _PIPELINE_HANDLERS = {
     '$graphLookup': _handle_graph_lookup_stage,
     '$group': _handle_group_stage,
     '$indexStats': None,
-    '$limit': lambda c, d, o: c[:o],
+    '$limit': _handle_limit_stage,
     '$listLocalSessions': None,
     '$listSessions': None,
     '$lookup': _handle_lookup_stage,
@@ -1770,7 +1788,7 @@ _PIPELINE_HANDLERS = {
     '$replaceWith': None,
     '$sample': _handle_sample_stage,
     '$set': _handle_add_fields_stage,
-    '$skip': lambda c, d, o: c[o:],
+    '$skip': _handle_skip_stage,
     '$sort': _handle_sort_stage,
     '$sortByCount': None,
     '$unset': None,
